@@ -22,6 +22,8 @@ structure Assumptions {A Au : Type} (env : Env A Au) (r : Rules) (t : Tx A Au) (
   authSize : (env.pu.bytes t.auth).length ≤ authBw
   authComp : env.authCompute t.auth ≤ authCompute
   sponsor : (env.sponsorKeys t.auth).map env.chunks = r.sponsorChunks
+  /-- the max-chunks of an action's state keys do not depend on the action id (the keys may) -/
+  keyChunks : ∀ a id id', (env.keys a id).map env.chunks = (env.keys a id').map env.chunks
   ts : -(2 ^ 63 : Int) ≤ t.base.timestamp ∧ t.base.timestamp < 2 ^ 63
   chainID : t.base.chainID.length = 32
   maxFee : t.base.maxFee.length = 8
@@ -51,10 +53,16 @@ theorem bandwidth_le {A Au : Type} (env : Env A Au) (r : Rules) (t : Tx A Au) (b
 theorem storage_le {A Au : Type} (env : Env A Au) (r : Rules) (t : Tx A Au) (bw ac : Nat)
     (h : Assumptions env r t bw ac) (keyU valU : Nat) :
     storage keyU valU ((stateKeys env t).map env.chunks) ≤
-      storage keyU valU (t.actions.flatMap (fun a => (env.keys a).map env.chunks) ++ r.sponsorChunks) := by
-  have e : t.actions.flatMap (fun a => (env.keys a).map env.chunks) ++ r.sponsorChunks =
-      (t.actions.flatMap env.keys ++ env.sponsorKeys t.auth).map env.chunks := by
+      storage keyU valU ((withIdx 0 t.actions).flatMap
+        (fun ai => (env.keys ai.1 (env.actionID emptyID ai.2)).map env.chunks) ++ r.sponsorChunks) := by
+  have e : (withIdx 0 t.actions).flatMap
+        (fun ai => (env.keys ai.1 (env.actionID emptyID ai.2)).map env.chunks) ++ r.sponsorChunks =
+      ((withIdx 0 t.actions).flatMap
+        (fun ai => env.keys ai.1 (env.actionID (env.txID (encodeTx env.pa env.pu t)) ai.2))
+        ++ env.sponsorKeys t.auth).map env.chunks := by
     rw [List.map_append, h.sponsor, List.map_flatMap]
+    congr 1
+    exact flatMap_congr' _ (fun ai _ => h.keyChunks ai.1 _ _)
   rw [e]
   unfold storage stateKeys
   rw [List.map_map, List.map_map]
@@ -62,7 +70,8 @@ theorem storage_le {A Au : Type} (env : Env A Au) (r : Rules) (t : Tx A Au) (bw 
 
 /-- **estimate_ge_units**: whenever `EstimateUnits` succeeds, `Units` of the transaction signed
 over the same actions succeeds and is at most the estimate in every dimension — for all action
-lists (any number, sizes, compute units and key sets, with keys shared between actions), all
+lists (any number, sizes, compute units and key sets, with keys shared between actions or
+derived from the action id), all
 auths within their factory's `MaxUnits`, and all rule values. -/
 theorem estimate_ge_units {A Au : Type} (env : Env A Au) (r : Rules) (t : Tx A Au) (bw ac : Nat)
     (h : Assumptions env r t bw ac) {e : Dims} (he : estimateUnits env r t.actions bw ac = some e) :
@@ -74,17 +83,20 @@ theorem estimate_ge_units {A Au : Type} (env : Env A Au) (r : Rules) (t : Tx A A
   | some c =>
     simp only [h1] at he
     cases h2 : checked (storage r.keyRead r.valRead
-        (t.actions.flatMap (fun a => (env.keys a).map env.chunks) ++ r.sponsorChunks)) with
+        ((withIdx 0 t.actions).flatMap
+          (fun ai => (env.keys ai.1 (env.actionID emptyID ai.2)).map env.chunks) ++ r.sponsorChunks)) with
     | none => simp [h2] at he
     | some rd =>
       simp only [h2] at he
       cases h3 : checked (storage r.keyAlloc r.valAlloc
-          (t.actions.flatMap (fun a => (env.keys a).map env.chunks) ++ r.sponsorChunks)) with
+          ((withIdx 0 t.actions).flatMap
+          (fun ai => (env.keys ai.1 (env.actionID emptyID ai.2)).map env.chunks) ++ r.sponsorChunks)) with
       | none => simp [h3] at he
       | some al =>
         simp only [h3] at he
         cases h4 : checked (storage r.keyWrite r.valWrite
-            (t.actions.flatMap (fun a => (env.keys a).map env.chunks) ++ r.sponsorChunks)) with
+            ((withIdx 0 t.actions).flatMap
+          (fun ai => (env.keys ai.1 (env.actionID emptyID ai.2)).map env.chunks) ++ r.sponsorChunks)) with
         | none => simp [h4] at he
         | some wr =>
           simp only [h4, Option.some.injEq] at he
@@ -137,14 +149,15 @@ theorem c14_counterexample_unrepaired :
 /-! non-vacuity: the assumptions are satisfiable and the estimate succeeds -/
 def exEnv : Env Nat Nat :=
   { pa := ⟨fun _ => none, fun n => List.replicate n 0⟩, pu := ⟨fun _ => none, fun n => List.replicate n 0⟩
-    compute := fun _ => 1, keys := fun _ => [[1]], chunks := fun _ => 2, authCompute := fun _ => 5
+    compute := fun _ => 1, keys := fun _ id => [id], actionID := fun tx i => tx ++ [UInt8.ofNat i],
+    txID := fun b => b.take 1, chunks := fun _ => 2, authCompute := fun _ => 5
     sponsorKeys := fun _ => [[9]] }
 def exRules : Rules := ⟨1, 5, 2, 20, 5, 10, 3, [2]⟩
 def exTx : Tx Nat Nat := ⟨⟨0, zeros 32, zeros 8⟩, [3, 3], 4⟩
 example : (estimateUnits exEnv exRules exTx.actions 4 5).isSome = true := by
   simp [estimateUnits, checked, exEnv, exRules, exTx, storage, sum, maxU64]
 example : Assumptions exEnv exRules exTx 4 5 := by
-  refine ⟨by simp [exEnv, exTx], by simp [exEnv], rfl, by simp [exTx], by simp [exTx, zeros], by simp [exTx, zeros], ?_⟩
+  refine ⟨by simp [exEnv, exTx], by simp [exEnv], rfl, by intros; simp [exEnv], by simp [exTx], by simp [exTx, zeros], by simp [exTx, zeros], ?_⟩
   have h3 : sizeUint 3 = 1 := sizeUint_small (by omega)
   have h4 : sizeUint 4 = 1 := sizeUint_small (by omega)
   simp [exEnv, exTx, actionFrame, sum, maxBaseSize, h3, h4]
